@@ -10,7 +10,7 @@ from harness.common import (
     layout_blocks, layout_params, layout_pre, make_location, member, rel_of_pos, sname, total_len, walk_pos,
     wellformed,
 )
-from vlib.obl import Obl
+from vlib.obl import Obl, split_cubes
 
 META = dict(
     functions=[
@@ -123,6 +123,80 @@ def sub(k, strand, rel_strand, force_compound=False):
     return fn
 
 
+def r2p_overlapping(k, strand):
+    """signed gaps (overlap / nesting / any order): relative->parent must enumerate the SORTED blocks' bases 5'->3'"""
+
+    def fn(**kw):
+        bl, loc = _mk(k, strand, kw, True)
+        r = kw["r"]
+        sb = [(b.start, b.end) for b in loc.blocks]  # the library's own (sorted) block order defines the walk
+        in_range = AND(r >= 0, r < total_len(bl))
+        try:
+            got = loc.relative_to_parent_pos(r)
+        except REFUSE:
+            return NOT(in_range)
+        return AND(in_range, got == walk_pos(sb, strand, r), member(got, bl))
+
+    return fn
+
+
+def sub_overlapping(k, strand, rel_strand, ordered_claim=False):
+    """overlapping / nested layouts. ordered_claim=False: the result covers exactly the MULTISET of bases the point-wise
+    map yields for [a, b) (a CompoundInterval re-sorts its blocks, so order is a separate claim: known finding F12);
+    ordered_claim=True: additionally the i-th base equals the point-wise map's."""
+
+    def fn(**kw):
+        bl, loc = _mk(k, strand, kw, True)
+        a, b, i, p = kw["a"], kw["b"], kw["i"], kw["p"]
+        sb = [(x.start, x.end) for x in loc.blocks]
+        n = total_len(bl)
+        valid = AND(0 <= a, a <= b, b <= n)
+        try:
+            res = loc.relative_interval_to_parent_location(a, b, rel_strand)
+        except REFUSE:
+            return OR(NOT(valid), a == b)
+        if not valid:
+            return False
+        rb = blocks_of(res)
+        exp_strand = strand.relative_to(rel_strand)
+        if res.strand is not exp_strand:
+            return False
+        # number of walk indexes in [a, b) whose base is p
+        seq = sb if strand is PLUS else list(reversed(sb))
+        terms, cum = [], 0
+        for s_, e_ in seq:
+            idx = cum + ((p - s_) if strand is PLUS else (e_ - 1 - p))
+            terms.append(ITE(AND(s_ <= p, p < e_, a <= idx, idx < b), 1, 0))
+            cum = cum + (e_ - s_)
+        from harness.common import mult
+        conds = [len(res) == b - a, mult(p, rb) == SUM(terms)]
+        if ordered_claim:
+            src = (a + i) if rel_strand is PLUS else (b - 1 - i)
+            conds.append(OR(NOT(AND(0 <= i, i < b - a)), walk_pos(rb, exp_strand, i) == walk_pos(sb, strand, src)))
+        return AND(*conds)
+
+    return fn
+
+
+def _overlap_pre(k, sorted_starts=False):
+    def pre(**kw):
+        if not kw["s0"] >= 0:
+            return False
+        for i in range(k):
+            if not kw["l%d" % i] >= 0:
+                return False
+        prev = None
+        for s, e in layout_blocks(k, kw):
+            if not s >= 0:
+                return False
+            if sorted_starts and prev is not None and not s >= prev:
+                return False  # WLOG: the constructor sorts blocks (arbitrary input order is covered by r2p_overlapping)
+            prev = s
+        return True
+
+    return pre
+
+
 # ------------------------------------------------------------------ 4. parent location -> relative location
 def relloc(k, strand, kq, qstrand, force_compound=False):
     def fn(**kw):
@@ -216,7 +290,7 @@ def feature_interval_wrappers(k, strand):
 
 
 # ------------------------------------------------------------------ catalogue
-def _lp(k, extra, min_gap=0, min_len=0, q=None, qmin_len=0):
+def _lp(k, extra, min_gap=0, min_len=0, q=None, qmin_len=0, qmin_gap=0):
     params = dict(layout_params(k))
     if q:
         params.update(layout_params(q, "q"))
@@ -225,7 +299,7 @@ def _lp(k, extra, min_gap=0, min_len=0, q=None, qmin_len=0):
     def pre(**kw):
         if not layout_pre(k, kw, min_len=min_len, min_gap=min_gap):
             return False
-        if q and not layout_pre(q, kw, "q", min_len=qmin_len, min_gap=0):
+        if q and not layout_pre(q, kw, "q", min_len=qmin_len, min_gap=qmin_gap):
             return False
         return True
 
@@ -319,6 +393,57 @@ def obligations(tier):
                            budget=120 + 90 * k, cost=5 + 5 * k,
                            desc="FeatureInterval.feature_interval_to_sequence yields the walk's bases a..b; sequence_interval_to_feature of its span returns [a,b)",
                            bounds="k=%d exons, lengths>=1, gaps>=1, 0<=a<b<=len" % k, examples=[_ex(k, a=0, b=2, i=1)]))
+    if tier == "quick":
+        # light (2,2) variant: no empty blocks, no 0-bp gaps (the full (2,2) space runs in the thorough tier)
+        for strand, qs in ((PLUS, PLUS), (MINUS, PLUS)):
+            params, pre = _lp(2, {"r": int}, q=2, min_len=1, min_gap=1, qmin_len=1, qmin_gap=1)
+            out.append(Obl("relloc_light_k2_%s_q2_%s" % (sname(strand), sname(qs)), relloc(2, strand, 2, qs), params, pre,
+                           budget=400, cost=60,
+                           desc="parent_to_relative_location(Q), 2x2 blocks without empty blocks/0-bp gaps: r in result <=> r-th base of L in Q",
+                           bounds="L k=2, Q k=2, lengths>=1, gaps>=1, unbounded ints", examples=[_ex(2, q=2, r=1)]))
+    # overlapping / nested layouts (signed gaps)
+    for strand in (PLUS, MINUS):
+        for k in ((2, 3) if tier == "quick" else (2, 3, 4)):
+            ex2 = dict(s0=5, l0=6, l1=4, g1=-3) if k == 2 else dict(s0=0, l0=6, l1=4, l2=2, g1=-2, g2=2)
+            if k == 4:
+                ex2 = dict(s0=0, l0=6, l1=4, l2=2, l3=3, g1=-2, g2=2, g3=-1)
+            params = dict(layout_params(k))
+            params["r"] = int
+            out.append(Obl("r2p_overlapping_k%d_%s" % (k, sname(strand)), r2p_overlapping(k, strand), params, _overlap_pre(k),
+                           budget=300 * (k - 1), cost=[0, 0, 3, 30, 300][k],
+                           desc="overlapping/nested blocks: relative_to_parent_pos enumerates the sorted blocks' bases 5'->3'",
+                           bounds="k=%d blocks with signed gaps (overlap, nesting, any order), unbounded ints" % k,
+                           examples=[dict(ex2, r=7)]))
+            for rs in (PLUS, MINUS):
+                if tier == "quick" and k == 3 and not (strand is PLUS and rs is PLUS):
+                    continue  # 130-200 CPU-s each: the other three strand combinations run in the thorough tier
+                params = dict(layout_params(k))
+                params.update(a=int, b=int, i=int, p=int)
+                o = Obl("sub_overlapping_k%d_%s_rel%s" % (k, sname(strand), sname(rs)), sub_overlapping(k, strand, rs),
+                        params, _overlap_pre(k, sorted_starts=(k >= 3)), budget=400 * (k - 1), cost=[0, 0, 8, 190, 1500][k],
+                        desc="overlapping/nested blocks: relative_interval_to_parent_location covers exactly the multiset of "
+                             "bases the point-wise map yields for [a,b); strand composed; length b-a",
+                        bounds="k=%d blocks with signed gaps, unbounded ints" % k,
+                        examples=[dict(ex2, a=1, b=9, i=3, p=4)])
+                if k == 3:
+                    cubes = split_cubes(o, {"g1neg": lambda **kw: kw["g1"] < 0, "g2neg": lambda **kw: kw["g2"] < 0,
+                                            "aeqb": lambda **kw: kw["a"] + 1 >= kw["b"]})
+                    if tier == "quick":
+                        # quick keeps the mixed cubes (one overlap + one gap); chains of overlaps (180 CPU-s) and the
+                        # non-overlapping cube (already covered by sub_k3_*) run in the thorough tier
+                        cubes = [c for c in cubes if ("_g1neg_not-g2neg" in c.name or "not-g1neg_g2neg" in c.name)]
+                    out.extend(cubes)
+                elif k > 3:
+                    out.extend(split_cubes(o, {"g1neg": lambda **kw: kw["g1"] < 0, "g2neg": lambda **kw: kw["g2"] < 0,
+                                               "g3neg": lambda **kw: kw["g3"] < 0, "aeqb": lambda **kw: kw["a"] + 1 >= kw["b"]}))
+                else:
+                    out.append(o)
+                if k == 2:
+                    out.append(Obl("sub_order_signed_k2_%s_rel%s" % (sname(strand), sname(rs)),
+                                   sub_overlapping(k, strand, rs, ordered_claim=True), params, _overlap_pre(k), budget=300, cost=8,
+                                   desc="signed-gap 2-block layouts: the i-th base of the converted sub-interval equals the point-wise map's "
+                                        "(order claim; overlapping layouts are known finding F12)",
+                                   bounds="k=2 blocks with signed gaps, unbounded ints", examples=[dict(s0=5, l0=6, l1=4, g1=2, a=1, b=9, i=3, p=4)]))
     if tier == "thorough":
         for strand in (PLUS, MINUS):
             for k in (2, 3):
